@@ -143,6 +143,9 @@ class Interp:
         self._prom = {}
         self.unmodelled = collections.Counter()
         self.loop_cut = True
+        self.lenient_std = False
+        import os
+        self.trace = bool(os.environ.get("GCV_TRACE"))
 
     # ------------------------------------------------------------------ ADT helpers
     def adt_info(self, defp):
@@ -310,6 +313,9 @@ class Interp:
                     alloc, path = v[1], v[2]
                 elif v[0] == "obj":
                     alloc, path = ("V", v[1]), ()
+                elif v[0] in ("top", "sym", "app", "valref"):
+                    # pointer to opaque data (string constants, user values): reads are unknown
+                    alloc, path = ("V", "?"), ()
                 else:
                     raise InterpError("deref of non-reference %r in %s" % (v, fr.key))
             elif k == "f":
@@ -747,8 +753,12 @@ class Interp:
     def do_switch(self, st, fr, t, v):
         if is_int(v):
             tgt = t["otherwise"]
+            bits, _sg = self.int_width(t["ty"])
+            x = v[1]
+            if x < 0 and bits:
+                x = x & ((1 << bits) - 1)
             for val, b in zip(t["vals"], t["targets"]):
-                if val == v[1] or (v[1] < 0 and val == v[1] % (1 << 128)):
+                if val == x:
                     tgt = b
                     break
             fr.bb, fr.si = tgt, 0
@@ -877,7 +887,8 @@ class Interp:
         n = norm(impl)
         if n in self.prims:
             res = self.prims[n](self, st, [arg], {"def": n, "line": 0})
-            return self._after_prim(st, g, res, None, None, "cont", floor, outcomes, glue=True)
+            if res is not NotImplemented:
+                return self._after_prim(st, g, res, None, None, "cont", floor, outcomes, glue=True)
         key = self.prog.seed_n[n][0]
         self.push_call(st, key, [arg], dest=None, ret_bb=-1, unwind="cont")
         return st
@@ -936,7 +947,11 @@ class Interp:
         info["def"] = resolved or declared
         info["declared"] = declared
         info["f"] = f
-        for name in (resolved, declared):
+        if self.trace:
+            print("  " * len(st.frames), "CALL", resolved or declared, [_short(a) if a[0] != "adt" else a for a in args][:4],
+                  "line", t["l"])
+        names = (resolved, declared) if resolved != declared else (resolved,)
+        for name in names:
             if name and name in self.prims:
                 res = self.prims[name](self, st, args, info)
                 if res is NotImplemented:
@@ -978,7 +993,9 @@ class Interp:
             if res is not NotImplemented:
                 return self._after_prim(st, fr, res, dest, t.get("t"), t.get("u"), floor, outcomes)
         self.unmodelled[nm] += 1
-        if self.strict:
+        has_fn_arg = any(a[0] == "fn" or (a[0] == "adt" and str(a[1]).startswith("closure:")) for a in args)
+        external = not f.get("local") and f.get("krate") in ("core", "alloc", "std")
+        if self.strict and not (self.lenient_std and external and not has_fn_arg):
             raise Unmodelled("%s (called from %s:%s)" % (nm, norm(fr.body["def"]), t["l"]))
         return self._after_prim(st, fr, [(st, "ret", ("app", nm, tuple(args)))], dest, t.get("t"), t.get("u"),
                                 floor, outcomes)
@@ -1111,6 +1128,8 @@ def p_cell_set(ip, st, args, info):
     r = args[0]
     if r[0] == "ref":
         ip.write(st, r[1], r[2], args[1])
+    else:
+        st.event("cell_store", "Cell::set")
     return _ret(st, UNIT)
 
 
